@@ -17,7 +17,13 @@ def kinds_for_shard(kinds, shard, nshards):
 @st.composite
 def measurement_case(draw, tier, kinds, with_ham=False, orthonormal=None, restricted_walker=None, shapes=None, ham_kw=None):
     kind = draw(st.sampled_from(kinds))
-    norb, nelec = draw(st.sampled_from(shapes[kind] if shapes else gens.shapes_for(kind, tier)))
+    shp = list(shapes[kind] if shapes else gens.shapes_for(kind, tier))
+    closed = [x for x in shp if x[1][0] == x[1][1]]
+    if kind == "multislater" and restricted_walker is None and closed and draw(st.integers(0, 2)) == 0:
+        # the restricted entry of the multi-Slater trial has its own reference handling and only exists for closed shells: a third of
+        # the cases is drawn among the closed-shell shapes so that it is exercised at the quick count too
+        shp = closed
+    norb, nelec = draw(st.sampled_from(shp))
     params = draw(gens.trial_params(kind, norb, nelec, orthonormal))
     if restricted_walker is None:
         restricted = kind in gens.RESTRICTED_ONLY or (nelec[0] == nelec[1] and draw(st.integers(0, 1 if kind == "multislater" else 3)) == 0)  # multislater: the restricted entry has its own reference handling
